@@ -12,3 +12,28 @@ Lemma gen_HouseFee creator dep mkt idx amount wc wt fee :
        G_Deposit_Amount := amount; G_Deposit_WithdrawalCount := wc; G_Deposit_TotalWithdrawalAmount := wt |} fee =
   dec_round_int (dec_mulint fee amount).
 Proof. reflexivity. Qed.
+
+(* ---- x/house/keeper/withdrawal.go Withdraw (generated over: the verdict of the order-book keeper's WithdrawOrderBookParticipation, the
+   withdrawal records, the stored deposit): the records of an executed withdrawal are the ones the model's withdraw_core writes - a new
+   withdrawal numbered count + 1 for the signer / depositor / market / participation / mode / executed amount, appended; the deposit's
+   count + 1 and total + amount -------------------------------------------------------------------------------------------------------- *)
+Definition gd_of (d : deposit) : G_Deposit :=
+  {| G_Deposit_Creator := d_creator d; G_Deposit_DepositorAddress := d_depositor d; G_Deposit_MarketUID := d_mkt d; G_Deposit_ParticipationIndex := d_pidx d;
+     G_Deposit_Amount := d_amount d; G_Deposit_WithdrawalCount := d_wcount d; G_Deposit_TotalWithdrawalAmount := d_wtotal d |}.
+Definition gw_of (w : withdrawal) : G_Withdrawal :=
+  {| G_Withdrawal_Creator := w_creator w; G_Withdrawal_ID := w_id w; G_Withdrawal_Address := w_depositor w; G_Withdrawal_MarketUID := w_mkt w;
+     G_Withdrawal_ParticipationIndex := w_pidx w; G_Withdrawal_Mode := w_mode w; G_Withdrawal_Amount := w_amount w |}.
+Definition hwd_state (ok : bool) (wds : list withdrawal) (d : deposit) : S_hwd :=
+  {| S_hwd_ObOK := ok; S_hwd_Withdrawals := map gw_of wds; S_hwd_Deposit := gd_of d |}.
+Lemma gen_house_Withdraw ok wds d0 d signer depositor mkt pidx mode amt :
+  K_hwd_Withdraw (hwd_state ok wds d0) (gd_of d) signer depositor mkt pidx mode amt =
+  if negb ok then None else
+  Some (hwd_state ok
+          (wds ++ [{| w_id := d_wcount d + 1; w_creator := signer; w_depositor := depositor; w_mkt := mkt; w_pidx := pidx; w_mode := mode; w_amount := amt |}])
+          {| d_creator := d_creator d; d_depositor := d_depositor d; d_mkt := d_mkt d; d_pidx := d_pidx d; d_amount := d_amount d;
+             d_wcount := d_wcount d + 1; d_wtotal := d_wtotal d + amt |},
+        d_wcount d + 1).
+Proof.
+  unfold K_hwd_Withdraw, hwd_state. cbn [S_hwd_ObOK]. destruct ok; cbn [negb]; [|reflexivity].
+  cbn [set_S_hwd_Withdrawals set_S_hwd_Deposit S_hwd_ObOK S_hwd_Withdrawals S_hwd_Deposit]. rewrite map_app. reflexivity.
+Qed.
